@@ -337,6 +337,13 @@ for n, w in (("c17_teardown_mp", "mpmc"), ("c17_teardown_bc_stream", "broadcast 
       "sequential; symbolic: queued value, senders-first, receiver order", rules=MEMRULES, fp_restrict=FP, builtin_oracle=True, unwind=6)
 
 # ---- C16 unit level (real MemoryManager + ReadCursor)
+for _k in range(1, 5):
+    _n = "c16_free_vs_free_f%d" % _k
+    H(_n, M, "C16", ["C16", "C17"], "thorough",
+      "REAL MemoryManager, two retirements racing, forced-site mode: handle B's whole free(), which crosses the threshold (start_free hands the waiting list over as the batch of a new epoch), runs at the %d-th shared access / lock / allocation call of handle A's free(); nobody announces, so nothing may be deallocated" % _k,
+      "20 pre-loaded retirements, 2 tokens, forced site %d; a site at which B would wait for a lock A holds is outside the class (the harness is then vacuous and reported as such)" % _k, rules=MEMRULES, fp_restrict=FP, builtin_oracle=True, unwind=6)
+    _OPT_LATE = globals().setdefault("_OPT_LATE", [])
+    _OPT_LATE.append((_n, ("an operation ran at a preemption point", "the threshold was crossed: a new epoch is pending", "the forced site lies past the end of the outer operation")))
 for n, w, t in (("c16_protocol_seq", "sequential: 20 pre-loaded retirements, two writer scans, add_stream, remove_reader, final announce + retirement (reclamation cycle witnessed)", "quick"),
                 ("c16_protocol_o0", "writer's announce+scan preempted everywhere by the consumer's announce+add_stream / announce+remove_reader (retirements crossing the reclamation threshold)", "quick"),
                 ("c16_protocol_o1", "consumer's add_stream / remove_reader (incl. inside free/start_free/try_freeing) preempted everywhere by the writer's announce+scan", "quick"),
@@ -363,6 +370,10 @@ for n, cap, N in (("c03_fill_mp_c0", 0, 1), ("c03_fill_bc_c1", 1, 1), ("c03_fill
     H(n, S, "C03", ["C03", "C09"], "quick", "requested capacity %d: exactly N=%d sends accepted, then Full with the same value; after k (symbolic) receives exactly k more" % (cap, N),
       "sequential", rules=queue_rules(ring=N + 2))
 
+for n, w in (("c17_announce_bc", "broadcast N=2: tx0, rx0 (stream 0), single-consumer receiver on stream 1"), ("c17_announce_mp", "mpmc N=2: tx0, single-consumer receiver")):
+    H(n, S, "C17", ["C17", "C16", "C09"], "quick",
+      w + "; with a reclamation epoch pending, every operation that returns (try_send Ok, try_recv Ok/Empty, try_recv_view Ok/Empty; the value is queued or not by solver choice) must have announced the epoch (update_token recorded by the stub manager): a handle that operates without announcing blocks every reclamation cycle, so retired memory grows with churn",
+      "sequential, 5 calls, stubbed manager (ledger of update_token calls)", rules=SEQRULES)
 # ---- futures
 FU = "scen_fut"
 FUTRULES = queue_rules(retry=3, extra=[(r'FutWait.*spin|FutWait.*send_or_park', 3), (r'Stream.*poll|as futures::Stream>::poll', 4),
@@ -518,6 +529,8 @@ for _k in range(1, 17):
       "19 pre-loaded retirements, forced site %d, 4 ops at that site, payloads symbolic, everything else concrete" % _k, rules=MEMRULES, fp_restrict=FP, builtin_oracle=True, unwind=6, mem_gb=24, teardown=True, timeout=1500)
     _opt(_n, "three operations ran inside the removal", "a reclamation cycle freed the pre-loaded batch", "not in forced-site mode, or the forced site lies past the end of the outer operation")
 _opt("c16_protocol_seq", "an operation ran at a preemption point")
+for _n, _c in _OPT_LATE:
+    _opt(_n, *_c)
 _opt("c16_wq_drop_seq", "three operations ran inside the removal", "a reclamation cycle freed the pre-loaded batch")
 _opt("c08_mp_blk00_twodrops_lap", "a waiter was legitimately left blocked", "the blocked receiver returned a value")
 
@@ -575,8 +588,8 @@ QUICK = {
     "C13": ["c13_mp_one", "c13_mp_two_handles", "c13_bc_two_streams", "c13_bc_two_handles", "c13_bc_two_streams_rx0first"],
     "C14": ["c14_mp_send_vs_tryrecv", "c14_bc_drop_stream_repoll", "c14s_mp_poll_o1_vs_send", "c14_bc_sender_drop_repoll", "c14_mp_sender_drop_repoll"],
     "C15": ["c15_bc_hist6", "c15_mp_hist6", "c15_mp_hist8", "c15_mpfut_direct_recv", "c15_bcfut_direct_recv_drop", "c15_bc_fresh_poll"],
-    "C16": ["c16_protocol_seq", "c16_add_vs_scan", "c16_remove_vs_scan"],
-    "C17": ["c17_teardown_mp", "c17_teardown_bc_stream", "c17_teardown_bc_clone", "c17_churn_r3_nolag", "c17_churn_r3_lag", "c17_churn_tokens_r3"],
+    "C16": ["c16_protocol_seq", "c16_add_vs_scan", "c16_remove_vs_scan", "c16_free_vs_free_f1", "c16_free_vs_free_f2"],
+    "C17": ["c17_teardown_mp", "c17_teardown_bc_stream", "c17_teardown_bc_clone", "c17_churn_r3_nolag", "c17_churn_r3_lag", "c17_churn_tokens_r3", "c17_announce_bc", "c17_announce_mp"],
     "C18": ["c18_mp_frozen_recv", "c18_bc_frozen_send", "c18_mp_frozen_send_mw", "c18_bc_shared_inclone_mw"],
 }
 for _n, _h in HARNESSES.items():
